@@ -29,6 +29,13 @@ pub fn drops_len() -> usize {
 pub fn drops_from(i: usize) -> Vec<u32> {
     talloc::bypass(|| DROPS.with(|d| d.borrow()[i..].to_vec()))
 }
+/// Destructors of ARENA values logged since position `i` (tokens >= 4096 belong to `rootless_mutate` temporaries).
+pub fn arena_drops_since(i: usize) -> usize {
+    DROPS.with(|d| d.borrow()[i..].iter().filter(|x| **x < 4096).count())
+}
+pub fn dropped_times(id: u32) -> usize {
+    DROPS.with(|d| d.borrow().iter().filter(|x| **x == id).count())
+}
 pub fn drops_clear() {
     talloc::bypass(|| DROPS.with(|d| d.borrow_mut().clear()));
 }
@@ -202,6 +209,36 @@ unsafe impl<'gc> Collect<'gc> for Root<'gc> {
         cc.trace(&self.sets[0]);
         cc.trace(&self.sets[1]);
     }
+}
+
+thread_local! {
+    /// pointers found dangling by a root value's own destructor (see `Drop for Root`)
+    static ROOT_DROP_DANGLING: Cell<u32> = const { Cell::new(0) };
+}
+/// The root is an ordinary value with a destructor, and a destructor may look at what the value
+/// points to: when the root is dropped (with its arena, or when a callback replaces it) every
+/// allocation it still points to must be intact. Nothing is dereferenced: the tracking allocator is
+/// asked whether the block is still allocated.
+impl<'gc> Drop for Root<'gc> {
+    fn drop(&mut self) {
+        let mut bad = 0;
+        for g in self.r.iter().flatten() {
+            if talloc::addr_allocated((Gc::as_ptr(*g) as usize).wrapping_sub(1)) != Some(true) {
+                bad += 1;
+            }
+        }
+        for s in self.sets.iter().flatten() {
+            if talloc::addr_allocated(s.verif_addr().wrapping_sub(1)) == Some(false) {
+                bad += 1;
+            }
+        }
+        if bad > 0 {
+            ROOT_DROP_DANGLING.with(|c| c.set(c.get() + bad));
+        }
+    }
+}
+pub fn take_root_drop_dangling() -> u32 {
+    ROOT_DROP_DANGLING.with(|c| c.replace(0))
 }
 
 pub type RootT = Rootable![Root<'_>];
@@ -501,6 +538,10 @@ impl World {
         if talloc::errors_len() > 0 {
             let e = talloc::take_errors();
             viol!("alloc.error", "{}", e.join("; "));
+        }
+        let n = take_root_drop_dangling();
+        if n > 0 {
+            viol!("rootdrop.dangling", "when the root value was dropped, {n} of the allocations it points to had already been released (a destructor of the root would read freed memory)");
         }
         Ok(())
     }
